@@ -4,6 +4,7 @@ import json, subprocess
 PBT="property-based testing (proptest generators + own runner, model-based oracle, shrinking to a replay file)"
 C={
  "C02":("exploration","random A2S server states (all engines, all 32 EDF masks enumerated, obsolete GoldSrc layout, The Ship, 0-255 players, up to 65535 rules) under random transports (challenge rounds, Source/GoldSrc split, bzip2-compressed split) are served by a reactive reference server; valve::query and ten per-game wrappers are compared field for field with the expected response","trusts the reference encoder written from the Valve Server Queries document; points taken from the implementation are listed as assumptions in the evidence; python3 bz2 is the independent compressor",PBT,"§2 C02"),
+ "C03":("exploration","random Java/Bedrock/legacy statuses served by a reference server that speaks a subset of the five variants; specific queries compared field for field, auto-detect checked for result, label and the order of connections/requests on the wire; all 32 subsets enumerated in every run","trusts the reference encoders (Server List Ping, RakNet unconnected pong, legacy kick packets); Java description compared as parsed JSON",PBT+" + exhaustive enumeration of the 32 variant subsets","§2 C03"),
  "C04":("exploration","random GameSpy 1/2/3 server states are encoded by independent reference encoders (multi-part GS1, GS2 tables, GS3 handshake + splitnum packets with fields continued across packets) and query / query_vars results are compared with the expected response and the exact pair set","no formal specification exists; encoders follow the node-gamedig reading (assumptions listed in the evidence)",PBT,"§2 C04"),
  "C05":("exploration","random Quake 1/2/3 server states are encoded by an independent reference encoder, served through the scripted transport, and the query result is compared field for field with the expected response; sampled, not exhaustive","trusts the reference encoder's reading of the Quake status format (space-tokenised player lines, newline-terminated lines)",PBT,"§2 C05"),
  "C06":("exploration","random Unreal 2 server states (Latin-1 / UCS-2 strings with colour escapes and control codes, repeated rule keys, mutators, bots, 1-6+ datagrams per list) are encoded by a reference encoder; the query result must equal the response computed from the characters the model chose; every length-byte value and the BOM look-alike strings are enumerated in every run","trusts the reference encoder; UCS-2 strings whose first byte is 01 are sent in the 'stray 01' form because no reader can tell the two apart",PBT,"§2 C06"),
